@@ -10,6 +10,9 @@ the generator (vsim.gen_data), so executing a spec draws no random numbers at al
 Operations
   req      one Data.get_scores request against live dataset `ds`
   arm      arm a transient read fault at the verif.util.clean seam
+  interrupt  arm an asynchronous exception (KeyboardInterrupt / MemoryError) at the n-th line event inside
+             verif's own code during the next request that runs that long (crash at an arbitrary point of
+             an operation; the dataset object survives with whatever the interrupted request left behind)
   rebuild  build another Data object on the *same* input objects
   rng      perturb the global NumPy RNG
   tz       change the process time zone (TZ + tzset)
@@ -22,6 +25,7 @@ import hashlib
 import io
 import json
 import os
+import sys
 import warnings
 from collections import Counter
 
@@ -167,17 +171,59 @@ class Dataset(object):
         self.data = None
 
 
-def do_request(data, req, index):
+class LineInterrupt(object):
+    """Raises an exception at the n-th 'line' event inside verif's own source files (sys.settrace): the
+    simulator's version of Ctrl-C / a failed allocation at an arbitrary point of a running request."""
+
+    def __init__(self, nth, exc):
+        self.nth = nth
+        self.exc = {"KeyboardInterrupt": KeyboardInterrupt, "MemoryError": MemoryError}[exc]
+        self.count = 0
+        self.where = None
+        self.root = os.path.dirname(os.path.abspath(_verif().__file__)) + os.sep
+
+    def _local(self, frame, event, arg):
+        if event == "line" and self.where is None:
+            self.count += 1
+            if self.count == self.nth:
+                self.where = "%s:%d" % (os.path.basename(frame.f_code.co_filename), frame.f_lineno)
+                raise self.exc("injected by the simulator")
+        return self._local
+
+    def _global(self, frame, event, arg):
+        if self.where is None and frame.f_code.co_filename.startswith(self.root):
+            return self._local
+        return None
+
+    def __enter__(self):
+        self.count = 0
+        sys.settrace(self._global)
+        return self
+
+    def __exit__(self, *a):
+        sys.settrace(None)
+        return False
+
+
+def do_request(data, req, index, interrupt=None):
     """Issue one request; returns (status, arrays, raw_result)."""
     fields = [mk_field(f) for f in req["fields"]]
     arg = fields[0] if req.get("single") else fields
     axis = mk_axis(req["axis"])
     try:
         with Quiet():
-            res = data.get_scores(arg, req["input"], axis, index)
+            if interrupt is not None:
+                with interrupt:
+                    res = data.get_scores(arg, req["input"], axis, index)
+            else:
+                res = data.get_scores(arg, req["input"], axis, index)
         arrays = [res] if req.get("single") else list(res)
         return "ok", arrays, res
     except (SystemExit, Exception) as e:
+        return classify(e), [], None
+    except KeyboardInterrupt as e:
+        if interrupt is None or interrupt.where is None:
+            raise
         return classify(e), [], None
 
 
@@ -356,6 +402,7 @@ class DataSim(object):
         self.returned = []      # (step, array object, digest) of every array ever returned
         self.ref_env_utc = spec.get("ref_utc", False)
         self.refserver = None
+        self.pending_interrupt = None
 
     # ------------------------------------------------------------------ helpers
     def fresh(self):
@@ -434,7 +481,8 @@ class DataSim(object):
         fired = Counter()
         fired.update(self.env.fired)
         fired.update(self.cf.fired)
-        for k in ("fail_request", "rebuild_on_same_inputs", "rng_perturb", "replace_file_while_open", "aux_call"):
+        for k in ("fail_request", "rebuild_on_same_inputs", "rng_perturb", "replace_file_while_open", "aux_call",
+                  "interrupt_request"):
             if self.stats.get("fired:" + k):
                 fired[k] += self.stats["fired:" + k]
         return {"violation": self.violation, "digest": digest, "stats": dict(self.stats), "fired": dict(fired),
@@ -535,6 +583,10 @@ class DataSim(object):
             self.cf.arm(op["file"], op["var"], op["nth"], op.get("kind", "hdf"))
             self.emit(rec)
             return
+        if kind == "interrupt":
+            self.pending_interrupt = {"nth": op["nth"], "exc": op.get("exc", "KeyboardInterrupt")}
+            self.emit(rec)
+            return
         if kind == "replace_file":
             # the path gets a new inode with other content (same dimensions, other values), the way rsync or
             # mv replace a file, while the live dataset still uses the input object loaded from the old one
@@ -601,8 +653,22 @@ class DataSim(object):
         self.cf.reset_fired()
         if self.pinned:
             np.random.seed(self.pin_seed)
-        status, arrays, raw = do_request(data, req, index)
+        intr = None
+        if self.pending_interrupt is not None:
+            intr = LineInterrupt(self.pending_interrupt["nth"], self.pending_interrupt["exc"])
+        status, arrays, raw = do_request(data, req, index, intr)
         fired = list(self.cf.fired_now)
+        if intr is not None:
+            if intr.where is not None:
+                # stays armed until a request runs long enough to reach the n-th line
+                fired.append({"file": "<interrupt:%s>" % self.pending_interrupt["exc"], "var": "line-event"})
+                self.pending_interrupt = None
+                self.stats["fired:interrupt_request"] += 1
+                self.stats["interrupt_at:" + intr.where.split(":")[0]] += 1
+                if status == "ok":
+                    self.stats["interrupt_swallowed"] += 1
+            else:
+                self.stats["interrupt_armed_not_reached"] += 1
         live = {"status": status, "dig": [adigest(a) for a in arrays]}
         rec["live"] = live
         if fired:
